@@ -385,20 +385,24 @@ pub struct Variant {
     pub asym_ns: i64,
     /// configured priority1 of the daemon (C05: 128, 127, 129, 128 by worker index mod 4)
     pub own_p1: u8,
+    /// C08, workers 4..7: the instance is configured slave-only (4, 6); the port on the second segment (5, 6) or on
+    /// the first (7) is configured master-only
+    pub slave_only: bool,
+    pub master_only: Option<char>,
 }
 
 impl Variant {
     pub fn from_index(first: u64, prop: &str) -> Variant {
         let alt = (first / 4) % 2 == 1;
         let other_domain = first % 3 == 1;
-        Variant { path_trace: first % 2 == 1, udp: (first / 2) % 2 == 1, swap: alt && prop != "C12" && prop != "C06" && prop != "C09", p2p: (alt && (prop == "C12" || prop == "C09")) || prop == "C14", sdo: if other_domain { 0x1a5 } else { 0 }, domain: if other_domain { 7 } else { 0 }, alt, aml: (prop == "C14" || prop == "C07") && first % 2 == 1, long_timeout: prop == "C14", slow_other_port: prop == "C06" && alt, asym_ns: if prop == "C09" { [0i64, -2_000_000, 1_500_000, 12_345_678][(first % 4) as usize] } else { 0 }, own_p1: if prop == "C05" { [128u8, 127, 129, 128][(first % 4) as usize] } else { 128 } }
+        Variant { path_trace: first % 2 == 1, udp: (first / 2) % 2 == 1, swap: alt && prop != "C12" && prop != "C06" && prop != "C09" && prop != "C08", p2p: (alt && (prop == "C12" || prop == "C09")) || prop == "C14", sdo: if other_domain { 0x1a5 } else { 0 }, domain: if other_domain { 7 } else { 0 }, alt, aml: (prop == "C14" || prop == "C07") && first % 2 == 1, long_timeout: prop == "C14", slow_other_port: prop == "C06" && alt, asym_ns: if prop == "C09" { [0i64, -2_000_000, 1_500_000, 12_345_678][(first % 4) as usize] } else { 0 }, own_p1: if prop == "C05" { [128u8, 127, 129, 128][(first % 4) as usize] } else { 128 }, slave_only: prop == "C08" && alt && first % 2 == 0, master_only: if prop == "C08" && alt { [None, Some('b'), Some('b'), Some('a')][(first % 4) as usize] } else { None } }
     }
     pub fn index(&self) -> u64 {
         self.path_trace as u64 + 2 * self.udp as u64 + 4 * self.alt as u64
     }
     pub fn from_render(v: &Value, prop: &str) -> Variant {
         let alt = v["variant_alt"].as_bool().unwrap_or(false);
-        let mut var = Variant { path_trace: v["path_trace"].as_bool().unwrap_or(false), udp: v["transport"].as_str() == Some("udp-ipv4"), swap: alt && prop != "C12" && prop != "C06" && prop != "C09", p2p: (alt && (prop == "C12" || prop == "C09")) || prop == "C14", sdo: 0, domain: 0, alt, aml: false, long_timeout: prop == "C14", slow_other_port: prop == "C06" && alt, asym_ns: 0, own_p1: 128 };
+        let mut var = Variant { path_trace: v["path_trace"].as_bool().unwrap_or(false), udp: v["transport"].as_str() == Some("udp-ipv4"), swap: alt && prop != "C12" && prop != "C06" && prop != "C09" && prop != "C08", p2p: (alt && (prop == "C12" || prop == "C09")) || prop == "C14", sdo: 0, domain: 0, alt, aml: false, long_timeout: prop == "C14", slow_other_port: prop == "C06" && alt, asym_ns: 0, own_p1: 128, slave_only: false, master_only: None };
         // sdoId / domain are a function of the worker index
         let again = Variant::from_index(var.index(), prop);
         var.sdo = again.sdo;
@@ -406,6 +410,8 @@ impl Variant {
         var.aml = again.aml;
         var.asym_ns = again.asym_ns;
         var.own_p1 = again.own_p1;
+        var.slave_only = again.slave_only;
+        var.master_only = again.master_only;
         var
     }
 }
@@ -518,7 +524,7 @@ impl World {
         let dir = std::env::temp_dir().join(format!("vcheck-e2e-{}-{}", std::process::id(), GEN.fetch_add(1, std::sync::atomic::Ordering::Relaxed)));
         std::fs::create_dir_all(&dir).map_err(|e| e.to_string())?;
         let cfg = format!(
-            "loglevel = \"{ll}\"\nsdo-id = {sdo}\ndomain = {dom}\npriority1 = {p1}\nidentity = \"001b19aa0001beef\"\nvirtual-system-clock = true\npath-trace = {}\n\n[[port]]\ninterface = \"a0\"\nnetwork-mode = \"{nm}\"\nhardware-clock = \"none\"\nannounce-interval = {l}\nsync-interval = {l}\ndelay-interval = -2\ndelay-mechanism = \"{dm}\"\n{aml}\n[[port]]\ninterface = \"b0\"\nnetwork-mode = \"{nm}\"\nhardware-clock = \"none\"\nannounce-interval = {lb}\nsync-interval = {l}\ndelay-interval = -2\ndelay-mechanism = \"{dm}\"\n{aml}\n[observability]\nobservation-path = \"{}\"\n",
+            "loglevel = \"{ll}\"\nsdo-id = {sdo}\ndomain = {dom}\npriority1 = {p1}\nidentity = \"001b19aa0001beef\"\nvirtual-system-clock = true\npath-trace = {}\n{inst}\n[[port]]\ninterface = \"a0\"\nnetwork-mode = \"{nm}\"\nhardware-clock = \"none\"\nannounce-interval = {l}\nsync-interval = {l}\ndelay-interval = -2\ndelay-mechanism = \"{dm}\"\n{aml}{xa}\n[[port]]\ninterface = \"b0\"\nnetwork-mode = \"{nm}\"\nhardware-clock = \"none\"\nannounce-interval = {lb}\nsync-interval = {l}\ndelay-interval = -2\ndelay-mechanism = \"{dm}\"\n{aml}{xb}\n[observability]\nobservation-path = \"{}\"\n",
             path_trace,
             dir.join("obs.sock").display(),
             l = ANN_LOG,
@@ -528,6 +534,9 @@ impl World {
             sdo = variant.sdo,
             dom = variant.domain,
             p1 = variant.own_p1,
+            inst = if variant.slave_only { "slave-only = true\n" } else { "" },
+            xa = if variant.master_only == Some(if variant.swap { 'b' } else { 'a' }) { "master-only = true\n" } else { "" },
+            xb = if variant.master_only == Some(if variant.swap { 'a' } else { 'b' }) { "master-only = true\n" } else { "" },
             lb = if variant.slow_other_port { 0 } else { ANN_LOG },
             aml = format!("{}{}{}", if variant.asym_ns != 0 { format!("delay-asymmetry = {}\n", variant.asym_ns) } else { String::new() }, if variant.aml { "acceptable-master-list = [\"001b19cc00000002\", \"001b19cc00000007\", \"001b19cc00000021\"]\n" } else { "" }, if variant.long_timeout { "announce-receipt-timeout = 8\n" } else { "" })
         );
@@ -955,8 +964,13 @@ impl World {
         self.a1.send(&f.encode());
     }
 
+    /// the states the ports have while only the usual parent announces: (Slave, Master) - unless configured otherwise
+    pub fn steady_states(&self) -> (&'static str, &'static str) {
+        (if self.variant.master_only == Some('a') { "Master" } else { "Slave" }, if self.variant.slave_only { "Listening" } else { "Master" })
+    }
     pub fn steady(&self) -> bool {
-        matches!(self.port_states(), Some((a, b)) if a.starts_with("Slave") && b.starts_with("Master"))
+        let (wa, wb) = self.steady_states();
+        matches!(self.port_states(), Some((a, b)) if a.starts_with(wa) && b.starts_with(wb))
     }
 
     fn establish(&mut self) -> Result<(), String> {
@@ -968,13 +982,13 @@ impl World {
             }
             let d = Instant::now() + Duration::from_millis(150);
             self.run_until(d);
-            if self.steady() && self.seen_b.len() >= 2 {
+            if self.steady() && (self.seen_b.len() >= 2 || self.steady_states().1 != "Master") {
                 self.seen_b.clear();
                 self.sent.clear();
                 return Ok(());
             }
             if t0.elapsed() > Duration::from_secs(15) {
-                return Err(format!("daemon did not become slave on port 1 / master on port 2 within 15 s: {:?}", self.port_states()));
+                return Err(format!("daemon did not become {:?} on the two segments within 15 s: {:?}", self.steady_states(), self.port_states()));
             }
         }
     }
@@ -1456,6 +1470,34 @@ pub fn case_c17(w: &mut World, t: &mut Tape) -> E2eOut {
     w.obs_misses = 0;
     w.poll_obs_ms = Some(15);
     w.versioned = true;
+    // in half of the cases, first a hand-over decided by the BMCA, observed every 15 ms: a far better master appears
+    // on the second segment for 0.5-0.9 s (port 2 becomes the slave port, port 1 master) and falls silent again;
+    // every single observation must be of one instant (the ports' states and the data sets of the same BMCA run)
+    let handover = if t.bool() { Some(t.urange(500, 900)) } else { None };
+    if let Some(ms) = handover {
+        let q = PortId { clock: [0x00, 0x1b, 0x19, 0xcc, 0, 0, 0, 0x52], port: 1 };
+        let mut q_seq = t.below(0x10000) as u16;
+        let h0 = Instant::now();
+        while h0.elapsed() < Duration::from_millis(ms) {
+            q_seq = q_seq.wrapping_add(1);
+            let mut ann = simple_announce(q.clock, 50, 6, 0);
+            ann.gm_identity = q.clock;
+            let mut m = announce_from(q, q_seq, ann, 0, 0);
+            m.header.log_interval = ANN_LOG;
+            w.send_b(&m);
+            let d = Instant::now() + Duration::from_millis(ANN_MS);
+            w.run_until(d);
+        }
+        let h1 = Instant::now();
+        while h1.elapsed() < Duration::from_millis(3000) {
+            let d = Instant::now() + Duration::from_millis(50);
+            w.run_until(d);
+            if h1.elapsed() > Duration::from_millis(600) && w.steady() {
+                break;
+            }
+        }
+        out.label("daemon:handover-observed");
+    }
     // per-iteration weights of the traffic kinds
     let wts: Vec<u64> = (0..8).map(|_| t.below(6)).collect();
     let burst = t.urange(1, 6) as usize;
@@ -1553,7 +1595,7 @@ pub fn case_c17(w: &mut World, t: &mut Tape) -> E2eOut {
     w.parent_ann = default_parent_ann();
     w.parent_flags1 = 0;
     w.next_parent = Instant::now();
-    let rendered = json!({"flood_ms": flood_ms, "weights(parent announce, sync+fup, delay_resp, other announce, delay_req x2, announce on port 2, pdelay_req)": wts, "burst": burst, "pause_us": pause_us, "sent": sent, "observation_polls": obs_polls});
+    let rendered = json!({"handover_ms": handover, "flood_ms": flood_ms, "weights(parent announce, sync+fup, delay_resp, other announce, delay_req x2, announce on port 2, pdelay_req)": wts, "burst": burst, "pause_us": pause_us, "sent": sent, "observation_polls": obs_polls});
     // Liveness, not speed: the daemon may need a while to work off its receive queues. It has up to 10 s to show,
     // within one 1.5 s window, at least two Announces on port 2 and an answer to a fresh Delay_Req; a deadlocked
     // or panicked daemon never does.
@@ -2762,13 +2804,36 @@ pub fn case_c08(w: &mut World, t: &mut Tape) -> E2eOut {
     let frames = w.log.clone();
     let win = Duration::from_millis(200);
     let mut roles_seen: BTreeSet<String> = BTreeSet::new();
+    for (_, a, b) in &polls {
+        roles_seen.insert(a.split('(').next().unwrap_or("").to_string());
+        roles_seen.insert(b.split('(').next().unwrap_or("").to_string());
+    }
+    // configured restrictions: a slave-only instance never has a master port, a master-only port is never slave
+    let seg = |c: char| if c == 'a' { "first" } else { "second" };
+    if w.variant.slave_only {
+        if let Some((_, a, b)) = polls.iter().find(|p| is(&p.1, "Master") || is(&p.2, "Master")) {
+            out.fail("daemon: a slave-only instance has a master port", format!("{} / {} ; {}", a, b, rendered));
+        }
+        if let Some((side, ty, _)) = frames.iter().find(|f| matches!(f.1, T_ANNOUNCE | T_SYNC | T_FOLLOW_UP | T_DELAY_RESP)) {
+            if out.violation.is_none() {
+                out.fail("daemon: master traffic from a slave-only instance", format!("{} on the {} segment ; {}", type_name(*ty), seg(*side), rendered));
+            }
+        }
+    }
+    if let Some(mo) = w.variant.master_only {
+        if let Some((_, a, b)) = polls.iter().find(|p| is(if mo == 'a' { &p.1 } else { &p.2 }, "Slave")) {
+            if out.violation.is_none() {
+                out.fail("daemon: a master-only port is slave", format!("{} / {} (master-only: the port on the {} segment) ; {}", a, b, seg(mo), rendered));
+            }
+        }
+        if frames.iter().any(|f| f.0 == mo && f.1 == T_DELAY_REQ) && out.violation.is_none() {
+            out.fail("daemon: Delay_Req from a master-only port", format!("on the {} segment ; {}", seg(mo), rendered));
+        }
+    }
     for (side, ty, at) in &frames {
         let around: Vec<&String> = polls.iter().filter(|p| p.0 + win >= *at && *at + win >= p.0).map(|p| if *side == 'a' { &p.1 } else { &p.2 }).collect();
         if around.len() < 4 {
             continue;
-        }
-        for s in &around {
-            roles_seen.insert(s.split('(').next().unwrap_or("").to_string());
         }
         let master_type = matches!(*ty, T_ANNOUNCE | T_SYNC | T_FOLLOW_UP | T_DELAY_RESP);
         if master_type && around.iter().all(|s| !is(s, "Master")) && out.violation.is_none() {
@@ -3662,6 +3727,8 @@ pub fn worker_main(args: &[String]) -> i32 {
             o.insert("acceptable_master_list".into(), json!(variant.aml));
             o.insert("delay_asymmetry_ns".into(), json!(variant.asym_ns));
             o.insert("own_priority1".into(), json!(variant.own_p1));
+            o.insert("slave_only".into(), json!(variant.slave_only));
+            o.insert("master_only_port_on_segment".into(), json!(variant.master_only.map(|c| c.to_string())));
         }
         let line = json!({
             "index": idx,
